@@ -4963,7 +4963,7 @@ def PrefixedArray(countfield, subcon):
         return f"(reuse(len(obj), lambda obj: {countfield._compilebuild(code)}), list({subcon._compilebuild(code)} for obj in obj), obj)[2]"
     macro._emitbuild = _emitbuild
 
-    def _actualsize(self, stream, context, path):
+    def _actualsize(stream, context, path):
         position1 = stream_tell(stream, path)
         count = countfield._parse(stream, context, path)
         position2 = stream_tell(stream, path)
